@@ -10,10 +10,12 @@ THEOREMS = ["C03_break_offset", "C03_jump_target", "C03_finish_last", "C03_strea
             "C03_codec_never_reads_outside_partial", "C03_codec_never_reads_outside_loops_partial",
             "C03_codec_never_reads_outside_segno_partial", "C03_stream_terminated_partial",
             "C03_stream_terminated_segno_partial", "C03_stream_terminated_loops_partial", "C03_track_wellformed_partial",
-            "C03_stream_at_offset_wellformed_partial", "C03_song_wellformed_partial"]
+            "C03_stream_at_offset_wellformed_partial", "C03_song_wellformed_partial",
+            "C03_optimised_song_wellformed_partial"]
 LEVEL = "proof"
 STREAM = "conv.seq"
 CHUNK = 100
+CASE_SECONDS = 60     # as C02: the real optimiser needs about 20 s under ASan for the 1000-event case of the D2 family (convwfox)
 TECHNIQUE = "Lean 4 theorems on the encoder's address arithmetic (loop-break back-patch, loop-back offset, terminator) + well-formedness walker and interpreter run on the real bytes + differential correspondence model<->mdsdrv.cpp"
 LEVEL_TEXT = ("Machine-checked theorems over the model of convert_track for the three places where an address is computed: the back-patched LPB/LPBL offset lands exactly on the "
               "instruction after the loop end (short and long form), the JUMP offset resolves to the position recorded at the loop point, FINISH is the last byte. Second layer (single "
@@ -24,17 +26,19 @@ LEVEL_TEXT = ("Machine-checked theorems over the model of convert_track for the 
               "mode through their routines, DRUM_MODE switched at the top level of channel tracks, subroutines called in drum mode) and every channel track in the "
               "domain: the walker accepts the stream the track table points at, the interpreter never reads outside / meets an unknown opcode / a missing length / an empty loop stack "
               "through all calls and returns however often the loop-back is followed, and a finished run with the jump followed twice passes >= 1 tick of note or rest time between the "
-              "loop marks. The whole-chunk statement (C03_full_statement: every stream incl. unreferenced and drum/macro ones passes the walker, every loop-back round passes >= 1 "
+              "loop marks. C03_optimised_song_wellformed_partial: the same for the chunk of an OPTIMISED song (Opt.optimize result validated and in the fragment; "
+              "hypotheses of C01_optimize_preserves on the original song; the expected tick string need only be defined for the original). Pitch envelopes are inside the fragment since round 5. "
+              "The whole-chunk statement (C03_full_statement: every stream incl. unreferenced and drum/macro ones passes the walker, every loop-back round passes >= 1 "
               "tick) outside that fragment is decided per case by Spec/SeqWf + Spec/SeqInterp run on the REAL bytes of generated and degenerate songs; the model reproduces the real chunk "
               "byte for byte; the judge marks the cases that are instances of the whole-song theorem (ok proved-fragment).")
 LEVEL_NOTE = ("Trusted: Lean kernel; Model/MdsCodec+MdsConv+MdsFile (agreement with mdsdrv.cpp by differential testing); Spec/SeqWf and Spec/SeqInterp (reconstructed MDSDRV format). "
               "Proved part = address arithmetic of the codec + per-stream well-formedness/safety at any offset + whole songs of the fragment, drum mode included (partial: chunk < 64 KiB, "
               "<= 1 loop point per channel track, called tracks without loop point / drum-mode switch, drum-mode switches outside loops, routine tracks = timeless commands before "
-              "their first note, loop section ending in the drum state it starts in, no pitch envelope, platform commands agreeing between converter and timeline, loop point at depth 0); the walker on "
+              "their first note, loop section ending in the drum state it starts in, platform commands agreeing between converter and timeline, loop point at depth 0); the walker on "
               "unreferenced / routine / macro streams themselves "
               "and songs outside the domain = oracle on real bytes. Known finding: a loop point inside a counted loop is accepted and compiled to a jump into "
               "the loop (D21).")
-RULE = ("the C02 generators (adjacency sweep + structured songs) plus a degenerate family: empty track, loop point last, loop point followed only by zero-time commands, "
+RULE = ("the C02 generators (adjacency sweep + structured songs + pitch family + optimised songs as convwfo/convwfox: optimise, convert, judge the bytes) plus a degenerate family: empty track, loop point last, loop point followed only by zero-time commands, "
         "command-only loop bodies, single call, counts {1,2,255}, loop point inside loops and subroutines; non-trivial = has loop/call/segno; distinct by request text")
 EXPLANATION = "SeqWf.checkAll + interpreter (loop-back followed twice) on the real seq bytes; model vs real converter byte-exact"
 ASSUMPTIONS = ["MDSDRV sequence semantics as written in Spec/SeqInterp.lean", "streams shorter than 64 KiB"]
@@ -109,6 +113,22 @@ def cases(rng, tier):
 
 outcome_class = c02.outcome_class
 
+SIZE_LIMIT = {"n": 0}
+
+
+def agree(case, impl, model):
+    """correspondence: equal answers; `convwfox` requests (optimised songs beyond the reach of the list-based optimiser
+    model) are decided by the well-formedness oracle on the real bytes alone (as `convox` in C02)"""
+    if case.req.startswith("convwfox ") and model.startswith("MODEL:size-limit"):
+        SIZE_LIMIT["n"] += 1
+        return True
+    return impl == model
+
+
+def judge_notes(cases, impl, judge):
+    if SIZE_LIMIT["n"]:
+        yield "%d `convwfox` cases beyond the reach of the optimiser model: decided by the well-formedness oracle on the real bytes only" % SIZE_LIMIT["n"]
+
 
 def segno_in_loop(req):
     T = songgen.event_types()
@@ -145,4 +165,4 @@ def shrink(req):
     extra = [t for t in toks[1:] if not (t[0] == "T" and t[1:2].isdigit())]
     for s2 in songgen.shrink_song(song):
         if any(k < 16 for k in s2):
-            yield " ".join(["convwf"] + extra + [songgen.render(s2)])
+            yield " ".join([toks[0]] + extra + [songgen.render(s2)])
